@@ -131,6 +131,10 @@ class SoftwareManager:
                 config=software_config,
             )
 
+        if software.name in self.software:
+            # re-installing (e.g. scenario software that is also system software) replaces the previous instance
+            self.uninstall(software.name)
+
         software.parent = self.node
         if isinstance(software, Application):
             self.node.applications[software.uuid] = software
